@@ -1134,7 +1134,8 @@ def run(ctx: Ctx) -> None:
     ctx.cov["replay_wall_s"] = {"direct": round(t1 - t0, 1), "e2e": round(t2 - t1, 1)}
     ctx.cov["model_drift_notes"] = {k: v for k, v in stats.items() if k.startswith("drift")}
     ctx.cov["replay_stats"] = {k: v for k, v in stats.items() if not k.startswith("drift")}
-    ctx.cov["exhaustive"] = "grid complete up to the stated depth; deeper cases are a seeded sample" if quick else "grid complete to depth 4"
+    ctx.cov["exhaustive"] = not quick
+    ctx.cov["exhaustive_note"] = "grid complete up to the stated depth; deeper cases are a seeded sample" if quick else "grid complete to depth 4"
     ctx.rule("cases = TLC phase-1 states of MC_PathRes (layout x prefix x component sequence x trailing slash), de-duplicated by concrete "
              "spelling; each executed against every entry point (deep cases: both resolvers + 3-4 rotating entry points); non-trivial = "
              "rejected/escaping in the model or containing '..', an empty component, a symlink name, t2 or an absolute prefix; distinct by "
